@@ -636,6 +636,34 @@ def _path_equivalence_inner(name, path, files, data, ref_lk, ref, root, mods):
             # mako-render names the template by its file path (there is no URI on the command line): a template that prints its
             # own uri prints that path
             got = buf.getvalue().replace(root, "")
+        elif path == "mako_render_output_encoding":
+            # the command with --output-encoding, to stdout and to --output-file
+            import io
+            import sys
+            from mako import cmd
+            outs = []
+            for to_file in (False, True):
+                target = os.path.join(root, "..", "out.txt")
+                argv = ["--template-dir", root, "--output-encoding", "utf-8"] + [a for k, v in data.items() for a in ("--var", "%s=%s" % (k, v))]
+                if to_file:
+                    argv += ["--output-file", target]
+                raw = io.BytesIO()
+                saved = sys.stdout
+                sys.stdout = wrapper = io.TextIOWrapper(raw, encoding="utf-8", write_through=True)
+                try:
+                    cmd.cmdline(argv + [os.path.join(root, "t")])
+                    wrapper.flush()
+                finally:
+                    sys.stdout = saved
+                    wrapper.detach()          # keep the byte buffer open
+                if to_file:
+                    with open(target, "rb") as fp:
+                        outs.append(fp.read().decode("utf-8"))
+                else:
+                    outs.append(raw.getvalue().decode("utf-8"))
+            if outs[0] != outs[1]:
+                return ("stdout %r / --output-file %r" % (outs[0][:40], outs[1][:40]), "the same text")
+            got = outs[0].replace(root, "")
         elif path == "moved_source":
             # compiled into a module directory, then the template directory is renamed (mtimes unchanged, the module file is
             # re-used) and an unrelated file appears at the old place: source / code / output are still this template's own
